@@ -66,8 +66,19 @@ pub fn check(rep: &mut CaseReport, events: &[Event], view: &WireView, p: &Params
     let mut pending_arrival: Option<(i64, usize, Us, usize)> = None; // (idx, len, t, ev) waiting for its RxData outcome
     let mut my_max_payload_acked = 0usize;
     let mut fin_at: Option<i64> = None; // index of the peer's FIN once it was taken in sequence
+    // the transport may refuse datagrams for a while (full send buffer): what is owed at an instant
+    // inside such an interval is owed at its end
+    let blocked = crate::mon::diag::blocked_intervals(events, p.real_addr);
+    if !blocked.is_empty() {
+        rep.counters.add("c07_transport_blockages_seen", blocked.len() as u64);
+    }
     let settle_immediate = |rep: &mut CaseReport, immediate: &mut Option<(Us, usize, &'static str)>, now: Us| {
-        if let Some((t, _, why)) = *immediate {
+        if let Some((t, ev, why)) = *immediate {
+            let free_at = crate::mon::diag::unblocked_at(&blocked, t);
+            if free_at > t {
+                *immediate = Some((free_at, ev, why));
+                return;
+            }
             if now > t {
                 rep.violate(
                     P,
@@ -84,7 +95,7 @@ pub fn check(rep: &mut CaseReport, events: &[Event], view: &WireView, p: &Params
         settle_immediate(rep, &mut immediate, e.t);
         // delayed obligations that are overdue
         delayed.retain(|(dl, idx, at)| {
-            if e.t > *dl {
+            if e.t > *dl && e.t > crate::mon::diag::unblocked_at(&blocked, dl.saturating_sub(EPS)) + EPS {
                 rep.violate(
                     P,
                     "delayed-ack-late",
@@ -184,7 +195,11 @@ pub fn check(rep: &mut CaseReport, events: &[Event], view: &WireView, p: &Params
                                 rep.counters.inc("c07_threshold_crossings_seen");
                                 immediate = Some((t, ev, "unacknowledged bytes reached twice the segment size"));
                             } else {
-                                delayed.push((t + ACK_DELAY + EPS, idx, t));
+                                // (the 40 ms run from the moment the endpoint takes the packet in;
+                                // with the transport blocked at hand-over that is the end of the
+                                // blockage: the endpoint processes nothing while it cannot send)
+                                let base = crate::mon::diag::unblocked_at(&blocked, t);
+                                delayed.push((base + ACK_DELAY + EPS, idx, t));
                             }
                         }
                     }
@@ -232,6 +247,11 @@ pub fn check(rep: &mut CaseReport, events: &[Event], view: &WireView, p: &Params
                 };
                 let wp = &view.pkts[pi];
                 if wp.scripted {
+                    continue;
+                }
+                // a datagram the transport refused never left: the peer was told nothing
+                if !wp.left_sender() {
+                    rep.counters.inc("c07_emission_attempts_refused_by_the_transport");
                     continue;
                 }
                 let pk = match &wp.pkt {
